@@ -11,6 +11,9 @@ CLASSIFIERS: dict = {}
 
 
 def run(ctx):
+    from harness.props import sem_common
+
+    sem_common.run_semantics_suite(ctx, ctx.pick(60, 600))
     ctx.rule("exhaustive: all statement sequences up to length k (quick 3, thorough 4) over a 12-template alphabet on 3 qubits "
              "(named/anonymous rotations incl. cancelling pairs, CNOT, CZ, matrix gate, measure, reset, comment); random: "
              "circuits up to 40 statements on 1..4 qubits, all octants, angles around 0 and +-pi, opposite/identical axes; "
